@@ -19,9 +19,9 @@ PRELUDE = r'''
 int verif_thrown;
 int verif_thrown_other;
 size_t verif_ghost_idx, verif_ghost_idx2, verif_ghost_idx3, verif_ghost_idx4;
-#define VERIF_THROW(r) do { verif_thrown = 1; return r; } while (0)
-#define VERIF_THROW_OTHER(r) do { verif_thrown_other = 1; return r; } while (0)
-#define VERIF_PROPAGATE(r) do { if (verif_thrown || verif_thrown_other) return r; } while (0)
+#define VERIF_THROW(r) verif_thrown = 1; return r
+#define VERIF_THROW_OTHER(r) verif_thrown_other = 1; return r
+#define VERIF_PROPAGATE(r) if (verif_thrown || verif_thrown_other) return r
 struct vbuf { char c[VERIF_STRCAP]; };
 struct vbuf nondet_vbuf(void);
 '''
@@ -219,7 +219,7 @@ def build_tu(proj, job):
     parts.append(gen_harness(job, fi, contract))
     text = '\n'.join(parts) + '\n'
     return dict(text=text, entry='h_' + fi.cname, cname=fi.cname, replace=replace_cnames, contract=contract,
-                report=report, metas=metas, fi=fi, has_loops=bool(contract.loops))
+                report=report, metas=metas, fi=fi, has_loops=bool(contract.loops), loop_lines=ex.loop_lines)
 
 
 def _limit():
@@ -245,7 +245,12 @@ def run_cmd(cmd, timeout, cwd=None, stdout_path=None):
 
 
 # loops of the shim's own helper functions (bounded by the literal / alphabet lengths, not by the job's --unwind)
-SHIM_UNWIND = {'verif_strlen.0': 44, 'verif_strchr.0': 44, 'verif_index_of.0': 44, 'vstr_set.0': 16, 'vstr_in_set_.0': 16}
+SHIM_UNWIND = {'__CPROVER_contracts_write_set_check_assignment.0': 40, '__CPROVER_contracts_write_set_check_array_set.0': 40,
+               '__CPROVER_contracts_write_set_check_assigns_clause_inclusion.0': 40, '__CPROVER_contracts_write_set_check_frees_clause_inclusion.0': 40,
+               '__CPROVER_contracts_write_set_check_havoc_object.0': 40, '__CPROVER_contracts_write_set_check_deallocate.0': 40,
+               '__CPROVER_contracts_write_set_check_array_copy.0': 40, '__CPROVER_contracts_write_set_check_array_replace.0': 40,
+               '__CPROVER_contracts_car_set_contains.0': 40, '__CPROVER_contracts_write_set_havoc_get_assignable_target.0': 40,
+               'verif_strlen.0': 44, 'verif_strchr.0': 44, 'verif_index_of.0': 44, 'vstr_set.0': 16, 'vstr_in_set_.0': 16}
 
 # Math helpers that are inlined (their extracted bodies become part of the verified TU) whenever mentioned
 AUTO_INLINE = {'Math::pi': {}, 'Math::degree': {}, 'Math::NaN': {}, 'Math::infinity': {}, 'Math::sq': {}, 'Math::LatFix': {},
@@ -297,6 +302,24 @@ def run_job(proj, job, workdir, tier='quick', seed=0, only_property=None):
     if rc != 0:
         res['diag'] = 'goto-cc failed (the extraction rules do not cover this text, or contract syntax):\n' + (out + err)[-3000:]
         return res
+    if b['has_loops']:
+        # DFCC gives spurious frame failures for an uncontracted loop that follows a contracted one in the same
+        # function: loops without a contract are unwound (with unwinding assertions) BEFORE the contract instrumentation
+        rc, out, err, _ = run_cmd(['goto-instrument', '--show-loops', a_gb], 120)
+        ids = re.findall(r'Loop (%s\.\d+):\s*\n\s*file \S+ line (\d+)' % re.escape(b['cname']), out)
+        todo = [i for i, ln in ids if int(ln) not in b['loop_lines']]
+        if len(ids) - len(todo) != len(b['loop_lines']):
+            res['diag'] = 'loop contracts: could not match contracted loops by source line (%s vs %s)' % (ids, b['loop_lines'])
+            return res
+        if todo:
+            a2 = a_gb + '.pre'
+            us = dict(getattr(job, 'unwindset', None) or {})
+            rc, out, err, _ = run_cmd(['goto-instrument', '--unwindset', ','.join('%s:%d' % (i, us.get(i, job.unwind or 2)) for i in todo),
+                                       '--unwinding-assertions', a_gb, a2], 300)
+            if rc != 0:
+                res['diag'] = 'goto-instrument pre-unwinding failed:\n' + (out + err)[-2000:]
+                return res
+            a_gb = a2
     cmd = ['goto-instrument', '--dfcc', b['entry'], '--enforce-contract', b['cname']]
     for r in b['replace']:
         cmd += ['--replace-call-with-contract', r]
@@ -381,12 +404,14 @@ def run_job(proj, job, workdir, tier='quick', seed=0, only_property=None):
     n_real = [o for o in res['obligations'] if not o.get('canary')]
     res['n_obligations'] = len(n_real)
     res['n_discharged'] = sum(1 for o in n_real if o['status'] == 'SUCCESS')
-    if infra:
+    if res['failures']:
+        # a counterexample found within the bounds is a real trace of the extracted code
+        res['status'] = 'fail'
+        if infra:
+            res['diag'] = 'also: ' + '; '.join(infra[:4])
+    elif infra:
         res['status'] = 'error'
         res['diag'] = 'not a verdict -- the bound or the model is insufficient: ' + '; '.join(infra[:6])
-        res['failures'] = []
-    elif res['failures']:
-        res['status'] = 'fail'
     elif not canary_ok:
         res['status'] = 'error'
         res['diag'] = 'vacuity guard: the canary assertion after the call was NOT reachable (contradictory preconditions?)'
@@ -441,9 +466,13 @@ def expand_cases(job, kf=()):
         for k in kf:
             j = copy.copy(job)
             j.extra_assume = k['when']
-            j.cases = None
             j.subname = job.name + '#kf%d' % k['line']
-            out.append(j)
+            if job.cases or getattr(job, 'variants', None):
+                for jj in expand_cases(j):
+                    if not jj.subname.endswith('#exhaustive'):
+                        out.append(jj)
+            else:
+                out.append(j)
         return out
     if getattr(job, 'variants', None):
         out = []
